@@ -165,6 +165,21 @@ func (g *progGen) exprs(vars map[string]int, order []string, errProne bool) []SE
 		v := order[r.Intn(len(order))]
 		val := func(t STerm) SOp { return SOp{Kind: 0, Val: t} }
 		bin := func(o int) SOp { return SOp{Kind: 2, Bin: o} }
+		if r.Chance(10) {
+			// an expression whose value is not a boolean (not an error: the tuple is simply not
+			// accepted — only the boolean true satisfies a constraint)
+			switch {
+			case vars[v] == KInt && r.Bool():
+				out = append(out, SExpr{val(aVar(v)), val(aInt(1)), bin(9)})
+			case vars[v] == KStr && r.Bool():
+				out = append(out, SExpr{val(aVar(v)), SOp{Kind: 1, Un: 2}})
+			case r.Bool():
+				out = append(out, SExpr{val(aVar(v))})
+			default:
+				out = append(out, SExpr{val([]STerm{aInt(5), aStr("true"), aSet(aInt(1))}[r.Intn(3)])})
+			}
+			continue
+		}
 		switch vars[v] {
 		case KInt:
 			switch r.Intn(5) {
